@@ -74,4 +74,59 @@ Theorem scale_fl_pow2 (s g : float) (k : Z) :
   Rabs (bpow radix2 k * B2R g) < bpow radix2 emax ->
   B2R (scale_fl s g) = bpow radix2 k * B2R g /\ is_finite (scale_fl s g) = true.
 Proof. intros Fs Fg Es U O. exact (Bmult_pow2_exact prec emax Hp Hpe s g k Fs Fg Es U O). Qed.
+
+(* ---- the pre-computed reciprocals (exponential.rs:177 lambda_inverse = 1/lambda, weibull.rs:91 inv_shape = 1/shape,
+   pareto.rs:90 inv_neg_shape = -1/shape) and the composite Exp(lambda) sample  Exp1 * (1/lambda) ---- *)
+Definition recip_fl (x : float) : float := Bdiv mode_NE Bone x.
+Definition neg_recip_fl (x : float) : float := Bdiv mode_NE (Bopp Bone) x.
+
+Theorem recip_fl_value (x : float) :
+  is_finite x = true -> B2R x <> 0 -> Rabs (rnd (1 / B2R x)) < bpow radix2 emax ->
+  B2R (recip_fl x) = rnd (1 / B2R x) /\ is_finite (recip_fl x) = true.
+Proof.
+  intros Fx Nx O. unfold recip_fl. generalize (Bdiv_correct prec emax Hp Hpe mode_NE Bone x Nx).
+  rewrite (Bone_correct prec emax Hp Hpe). rewrite Rlt_bool_true by exact O.
+  intros (E & F & _). rewrite (is_finite_Bone prec emax Hp Hpe) in F. split; [exact E|exact F].
+Qed.
+
+Theorem neg_recip_fl_value (x : float) :
+  is_finite x = true -> B2R x <> 0 -> Rabs (rnd (- 1 / B2R x)) < bpow radix2 emax ->
+  B2R (neg_recip_fl x) = rnd (- 1 / B2R x) /\ is_finite (neg_recip_fl x) = true.
+Proof.
+  intros Fx Nx O. unfold neg_recip_fl. generalize (Bdiv_correct prec emax Hp Hpe mode_NE (Bopp Bone) x Nx).
+  rewrite B2R_Bopp, (Bone_correct prec emax Hp Hpe). rewrite Rlt_bool_true by exact O.
+  intros (E & F & _). rewrite is_finite_Bopp, (is_finite_Bone prec emax Hp Hpe) in F. split; [exact E|exact F].
+Qed.
+
+Definition exp_sample_fl (g lambda : float) : float := scale_fl g (recip_fl lambda).
+
+(* two roundings: |fl(g * fl(1/lambda)) - g/lambda| <= (2u + u^2) |g/lambda| + ((1+u)|g| + 1) eta *)
+Theorem exp_sample_fl_error (g lambda : float) :
+  is_finite g = true -> is_finite lambda = true -> B2R lambda <> 0 ->
+  Rabs (rnd (1 / B2R lambda)) < bpow radix2 emax ->
+  Rabs (rnd (B2R g * rnd (1 / B2R lambda))) < bpow radix2 emax ->
+  is_finite (exp_sample_fl g lambda) = true /\
+  Rabs (B2R (exp_sample_fl g lambda) - B2R g / B2R lambda)
+    <= (2 * u + u * u) * Rabs (B2R g / B2R lambda) + ((1 + u) * Rabs (B2R g) + 1) * eta.
+Proof.
+  intros Fg Fl Nl O1 O2. destruct (recip_fl_value lambda Fl Nl O1) as [Er Fr].
+  unfold exp_sample_fl. rewrite <- Er in O2. destruct (scale_fl_value g (recip_fl lambda) Fg Fr O2) as [E F].
+  split; [exact F|]. rewrite E, Er.
+  set (A := 1 / B2R lambda). set (x := B2R g).
+  pose proof (rnd_error prec emax Hp A) as E1. pose proof (rnd_error prec emax Hp (x * rnd A)) as E2.
+  pose proof (u_pos prec) as U0. pose proof (eta_pos prec emax) as H0.
+  replace (x / B2R lambda) with (x * A) by (unfold A; field; exact Nl).
+  assert (Rabs (x * rnd A - x * A) <= Rabs x * (u * Rabs A + eta)) as D1.
+  { replace (x * rnd A - x * A) with (x * (rnd A - A)) by ring. rewrite Rabs_mult. apply Rmult_le_compat_l; [apply Rabs_pos|exact E1]. }
+  assert (Rabs (x * rnd A) <= Rabs (x * A) + Rabs x * (u * Rabs A + eta)) as D2.
+  { replace (x * rnd A) with (x * A + (x * rnd A - x * A)) by ring. eapply Rle_trans; [apply Rabs_triang|]. lra. }
+  replace (rnd (x * rnd A) - x * A) with ((rnd (x * rnd A) - x * rnd A) + (x * rnd A - x * A)) by ring.
+  eapply Rle_trans; [apply Rabs_triang|].
+  rewrite (Rabs_mult x A) in * . set (ax := Rabs x) in * . set (aA := Rabs A) in * .
+  assert (0 <= ax) as P1 by apply Rabs_pos. assert (0 <= aA) as P2 by apply Rabs_pos.
+  assert (u * (ax * aA + ax * (u * aA + eta)) = u * (ax * aA) + u * u * (ax * aA) + u * ax * eta) as R1 by ring.
+  assert (u * Rabs (x * rnd A) <= u * (ax * aA + ax * (u * aA + eta))) as D3 by (apply Rmult_le_compat_l; lra).
+  assert (ax * (u * aA + eta) = u * (ax * aA) + ax * eta) as R2 by ring.
+  lra.
+Qed.
 End Fmt.
